@@ -6,7 +6,7 @@ from sim.seams import Env
 PROPERTY = "C06"
 LEVEL = "exploration"
 SCENARIOS = {"shared": 3, "per-instance": 1}
-TIERS = {"quick": {"runs": 12000, "chunk": 30}, "thorough": {"runs": 400000, "chunk": 200}}
+TIERS = {"quick": {"runs": 12000, "chunk": 30}, "thorough": {"runs": 50000000, "wall_s": 600, "chunk": 200, "recheck": 16}}
 RULE = ("one run = one generated DSL program containing `var += amount` / `var -= amount` "
         "for a drawn 4/8-byte format (i I q Q x), memory kind (array-map variable of the "
         "program or of a sub-program, Dict.lookup() value member, mI/mQ on a map-value "
